@@ -292,8 +292,9 @@ theorem shape_newap (s : Src) (dt u : Nat) (b : Bool) (v : List Rat) (d : List N
   · intro r hr; simp [newVals] at hr
   · intro v t hv hb; simp only [newVals, ValSrc.new.injEq] at hv; simp only at hb; rw [← hv.2, hb]; rfl
 
-theorem shape_filtered {s : Src} {sel : Nat → Bool} {kf : Bool} {ap : Option (List Nat)} {sp : NewSpec}
-    (e : filtered s sel kf ap = .ok sp) : CopyShape s sp := by
+theorem shape_filtered {s : Src} {sel : Nat → Bool} {kf : Bool} {ap : Option (List Nat)}
+    {order : Option (List Nat)} {sp : NewSpec}
+    (e : filtered s sel kf ap order = .ok sp) : CopyShape s sp := by
   unfold filtered at e
   simp only at e
   split at e
@@ -505,6 +506,50 @@ theorem mutate_local {m : Mode} {h h' : Heap} {a : Nat} {op : MOp} (wf : WF h) (
       · exact setv _ h' e
       · cases e
   case setItem i x =>
+    repeat' (split at e)
+    all_goals try (cases e; done)
+    all_goals
+      have hm : s.k.isMut = true := by simp_all
+      cases e
+      refine local_of_shape (k' := s.k) (hd' := s.hd) (m' := s.rmd) (ap' := s.ap)
+        (t' := s.tuple)
+        e1 e2 e3 ?_ ?_ ?_ ?_ ?_ (write_same _ _ _) hmt ?_ rfl rfl (Or.inl rfl) (Or.inl rfl) (Or.inl rfl)
+        (fun r hr => Or.inl hr) ?_
+      · exact write_wf wf _ l5
+      · simp [Heap.write, n15, e1]
+      · simp [Heap.write, n25, e2]
+      · simp [Heap.write, n35, e3]
+      · simp [Heap.write, n45, e4]
+      · intro r hr
+        obtain ⟨l, hl⟩ := e7 r hr
+        obtain ⟨_, _, _, _, r5, _, _⟩ := nn r l hl
+        exact ⟨l, by simp [Heap.write, r5, hl]⟩
+      · intro r hr ho
+        obtain ⟨_, _, _, _, r4⟩ := not_owned e1 e2 e3 ho
+        simp [Heap.write, r4 hm]
+  case rotate left =>
+    repeat' (split at e)
+    all_goals try (cases e; done)
+    all_goals
+      have hm : s.k.isMut = true := by simp_all
+      cases e
+      refine local_of_shape (k' := s.k) (hd' := s.hd) (m' := s.rmd) (ap' := s.ap)
+        (t' := s.tuple)
+        e1 e2 e3 ?_ ?_ ?_ ?_ ?_ (write_same _ _ _) hmt ?_ rfl rfl (Or.inl rfl) (Or.inl rfl) (Or.inl rfl)
+        (fun r hr => Or.inl hr) ?_
+      · exact write_wf wf _ l5
+      · simp [Heap.write, n15, e1]
+      · simp [Heap.write, n25, e2]
+      · simp [Heap.write, n35, e3]
+      · simp [Heap.write, n45, e4]
+      · intro r hr
+        obtain ⟨l, hl⟩ := e7 r hr
+        obtain ⟨_, _, _, _, r5, _, _⟩ := nn r l hl
+        exact ⟨l, by simp [Heap.write, r5, hl]⟩
+      · intro r hr ho
+        obtain ⟨_, _, _, _, r4⟩ := not_owned e1 e2 e3 ho
+        simp [Heap.write, r4 hm]
+  case truncate n =>
     repeat' (split at e)
     all_goals try (cases e; done)
     all_goals
